@@ -38,7 +38,7 @@ def run_one(d, keep=False):
             open(path, "w").write(s)
         env = dict(os.environ)
         env.update(VERIF_REPO=copy, VERIF_BUILD_DIR=os.path.join(work, "build"), VERIF_OUT_DIR=os.path.join(work, "out"),
-                   VERIF_EVIDENCE_DIR=os.path.join(work, "evidence"), VERIF_QUICK_SCALE=str(d.get("scale", 1)))
+                   VERIF_EVIDENCE_DIR=os.path.join(work, "evidence"), VERIF_QUICK_SCALE=str(d.get("scale", 1) * float(os.environ.get("DRILL_SCALE", "1"))))
         cmd = [os.path.join(VERIF, "check"), d["property"], "--tier", "quick"]
         if d.get("engine"):
             cmd += ["--engine", d["engine"]]
